@@ -31,13 +31,14 @@ var seedv int64
 
 // Case: a scenario (which issuer, which construction) plus a mutation of the encoded request.
 type Case struct {
-	Issuer      int    `json:"issuer"`        // issuer index that evaluates
-	Build       string `json:"build"`         // construction name
-	Mut         string `json:"mutation"`      // none | bit | trunc | ext
-	Arg         int    `json:"arg,omitempty"` // bit index / length / extension variant
-	Expect      string `json:"expect"`        // accept | reject
-	Variant     int    `json:"variant,omitempty"`
-	AfterHonest bool   `json:"after_an_accepted_request_on_a_private_issuer,omitempty"` // a private issuer object first serves an honest request, then this one
+	Issuer        int    `json:"issuer"`        // issuer index that evaluates
+	Build         string `json:"build"`         // construction name
+	Mut           string `json:"mutation"`      // none | bit | trunc | ext
+	Arg           int    `json:"arg,omitempty"` // bit index / length / extension variant
+	Expect        string `json:"expect"`        // accept | reject
+	Variant       int    `json:"variant,omitempty"`
+	AccessorFirst bool   `json:"origin_index_key_looked_up_first,omitempty"`
+	AfterHonest   bool   `json:"after_an_accepted_request_on_a_private_issuer,omitempty"` // a private issuer object first serves an honest request, then this one
 }
 
 const registered = "origin.example"
@@ -93,6 +94,7 @@ type knobs struct {
 	noSig       bool
 	sigLen      int // >0: cut the signature to this length
 	innerCut    int // >0: encrypt only the first innerCut bytes of the inner request
+	aadForm     int // 0: as specified; 1: without the request key; 2: empty; 3: without the name-key id; 4: request key only
 	cutEnc      bool
 	encLen      int // with cutEnc: the encrypted part (encapsulated key || ciphertext) is cut to this length, framing and signature consistent
 }
@@ -119,6 +121,16 @@ func craft(k knobs, label string) []byte {
 	pt := inner.Marshal()
 	if k.innerCut > 0 {
 		pt = pt[:k.innerCut]
+	}
+	switch k.aadForm {
+	case 1:
+		aad = append(append([]byte{}, aad[:9]...), nameKeyID(k.aadKey)...)
+	case 2:
+		aad = nil
+	case 3:
+		aad = append([]byte{}, aad[:len(aad)-32]...)
+	case 4:
+		aad = append([]byte{}, k.aadReqKey...)
 	}
 	ct := ctx.Seal(aad, pt)
 	encrypted := append(append([]byte{}, enc...), ct...)
@@ -184,7 +196,7 @@ func (wd *world) construct(c Case) ([]byte, *type3.RateLimitedTokenRequestState)
 		}
 		return append([]byte{}, st.Request().Marshal()...), &st
 	case "honest-client-unregistered-origin":
-		names := []string{"origin.exampl", "origin.example.", "origin.examplf", "Origin.example", "origin.example\x00a", "x", "origin.example/", "second.example"}
+		names := honestUnregistered
 		mc.Entropy("c07-" + lbl)
 		st, err := w.Create(honestArgs(names[c.Variant]))
 		if err != nil {
@@ -235,7 +247,7 @@ func (wd *world) construct(c Case) ([]byte, *type3.RateLimitedTokenRequestState)
 		return craft(k, lbl), nil
 	case "crafted-unregistered-origin":
 		k := base
-		k.origin = []string{"origin.exampl", "origin.example.", "", "other.example"}[c.Variant]
+		k.origin = craftedUnregistered[c.Variant]
 		return craft(k, lbl), nil
 	case "crafted-inner-request-truncated":
 		k := base
@@ -247,6 +259,12 @@ func (wd *world) construct(c Case) ([]byte, *type3.RateLimitedTokenRequestState)
 		// matches, decryption must fail
 		k := base
 		k.outerReqKey, k.signer = compress(rk2), rk2
+		return craft(k, lbl), nil
+	case "crafted-associated-data-of-another-shape":
+		// sealed with associated data that leave something out (the request key, the name-key id,
+		// everything): otherwise consistent and signed; the issuer's own AAD must not open it
+		k := base
+		k.aadForm = c.Variant + 1
 		return craft(k, lbl), nil
 	case "crafted-short-encrypted-part":
 		// parses completely, correctly framed and signed, but the encrypted part is shorter than an
@@ -276,6 +294,9 @@ func mutate(b []byte, c Case) []byte {
 	}
 	return b
 }
+
+var honestUnregistered = []string{"origin.exampl", "origin.example.", "origin.examplf", "Origin.example", "origin.example\x00a", "x", "origin.example/", "second.example"}
+var craftedUnregistered = []string{"origin.exampl", "origin.example.", "", "other.example"}
 
 var shortEncLens = []int{0, 1, 16, 31, 32, 33, 47, 48, 49}
 
@@ -315,6 +336,14 @@ func run(c Case) (string, *mc.Viol) {
 		}
 		firstResp, firstKey = hresp, hbrk
 		firstRespCopy, firstKeyCopy = append([]byte{}, hresp...), append([]byte{}, hbrk...)
+	}
+	if c.AccessorFirst {
+		// the operator asks the (private) issuer for the index key of the very name the request will
+		// carry: looking a name up must not register it
+		wd = buildWorldLabel("c07-world")
+		for _, name := range append(append([]string{}, honestUnregistered...), craftedUnregistered...) {
+			_ = mc.Catch(func() { _ = wd.w[c.Issuer].Issuer.OriginIndexKey(name) })
+		}
 	}
 	req, st := wd.construct(c)
 	in := mutate(req, c)
@@ -416,6 +445,9 @@ func main() {
 				cases = append(cases, Case{Issuer: is, Build: b, Mut: "none", Expect: "reject", Variant: v})
 			}
 		}
+		for v := 0; v < 4; v++ {
+			cases = append(cases, Case{Issuer: is, Build: "crafted-associated-data-of-another-shape", Mut: "none", Expect: "reject", Variant: v})
+		}
 		for v := range shortEncLens {
 			cases = append(cases, Case{Issuer: is, Build: "crafted-short-encrypted-part", Mut: "none", Expect: "reject", Variant: v})
 		}
@@ -435,11 +467,18 @@ func main() {
 		}
 		cases = append(cases, Case{Issuer: is, Build: "honest-client-for-other-issuer", Mut: "none", Expect: "reject", Variant: 1, AfterHonest: true})
 	}
+	// unregistered origins again, after the operator looked their index keys up on a private issuer
+	for v := 0; v < 7; v++ {
+		cases = append(cases, Case{Issuer: 0, Build: "honest-client-unregistered-origin", Mut: "none", Expect: "reject", Variant: v, AccessorFirst: true})
+	}
+	for _, v := range []int{0, 1, 3} {
+		cases = append(cases, Case{Issuer: 0, Build: "crafted-unregistered-origin", Mut: "none", Expect: "reject", Variant: v, AccessorFirst: true})
+	}
 	// the rejecting classes again, each offered to a private issuer that has just served an honest request
 	n0 := len(cases)
 	for i := 0; i < n0; i++ {
 		c := cases[i]
-		if c.Issuer != 0 || c.Expect != "reject" || c.AfterHonest {
+		if c.Issuer != 0 || c.Expect != "reject" || c.AfterHonest || c.AccessorFirst {
 			continue
 		}
 		if c.Mut == "bit" && c.Arg%16 != 3 || c.Mut == "trunc" && c.Arg%16 != 5 {
